@@ -3,6 +3,7 @@ import SJ.Proofs.RoundTripSer
 import SJ.Proofs.RoundTripWF
 import SJ.Props.C02
 import SJ.Props.C01
+import SJ.Props.C09
 /-!
 # C04 — serialise then deserialise is the identity (the `Value` clause)
 
@@ -267,8 +268,8 @@ example : WFValue {} (.num (.float 0x4004000000000000)) ∧ ¬ FloatsRoundTrip {
     — that the configured conversion never returns an infinity or NaN is the finiteness clause of C07
     (`float_roundtrip`) / C08 (default), a statement about `Spec.Ieee` rounding that is not proved here
     (see `c04_wf_of_parse_finite` for the form with that clause as hypothesis); on a concrete value it is
-    checked by evaluation; (2) `src ≠ .str`: for `from_str` the parser does not re-validate UTF-8, and
-    "escape-decoding a valid UTF-8 text yields valid UTF-8 strings" is not proved. -/
+    checked by evaluation. (2) `src ≠ .str`: `from_str` does not re-validate UTF-8; its input is valid
+    UTF-8 by type, and with that as hypothesis the same holds: `c04_wf_of_parse_str_partial` below. -/
 theorem c04_wf_of_parse_partial (cfg : Cfg) (src : Src) (hsrc : src ≠ .str) (bs : Bytes) (v : JV)
     (h : parseTop ⟨cfg, src, .value⟩ bs = .ok v) (hfin : finiteFloats v = true) : WFValue cfg v := by
   obtain ⟨t, ht, hc, hd, _, hu, _⟩ := SJ.Props.C02.c02_denotes ⟨cfg, src, .value⟩ rfl bs v h
@@ -335,5 +336,63 @@ theorem c04_reparse_partial (cfg : Cfg) (src : Src) (hsrc : src ≠ .str) (ext :
 example : ∃ bufs, serCompact ext0 (ofValue exDocV) = .ok bufs ∧
     parseTop ⟨{}, .slice, .value⟩ bufs.flatten = .ok exDocV :=
   c04_reparse_partial {} .slice (by decide) ext0 ext0_ok exDoc exDocV rfl rfl (by decide)
+
+/-! ## the `&str` source: the input is valid UTF-8 by type, so nothing is lost by not re-checking -/
+
+/-- **C04 (`wf_of_parse`, `from_str`) — partial.** Whatever `from_str` returns on a valid UTF-8 input (every
+    `&str`) satisfies the representation invariant. Same missing clause as `c04_wf_of_parse_partial`
+    (finiteness of parsed floats, C07/C08). By C09: on valid UTF-8 input `from_str` and `from_slice`
+    return the same value (`c09_str_slice_value`). -/
+theorem c04_wf_of_parse_str_partial (cfg : Cfg) (bs : Bytes) (hutf : Spec.Utf8.validUtf8 bs = true) (v : JV)
+    (h : parseTop ⟨cfg, .str, .value⟩ bs = .ok v) (hfin : finiteFloats v = true) : WFValue cfg v := by
+  rw [SJ.Props.C09.c09_str_slice_value cfg bs hutf] at h
+  exact c04_wf_of_parse_partial cfg .slice (by decide) bs v h hfin
+
+/-- `{"é":"é😀"}` (raw key, escaped value) from a `&str` -/
+def exStrDoc : Bytes :=
+  [0x7b, 0x22, 0xc3, 0xa9, 0x22, 0x3a, 0x22, 0x5c, 0x75, 0x30, 0x30, 0x65, 0x39, 0xf0, 0x9f, 0x98, 0x80, 0x22, 0x7d]
+def exStrDocV : JV := .obj [([0xc3, 0xa9], .str [0xc3, 0xa9, 0xf0, 0x9f, 0x98, 0x80])]
+
+example : parseTop ⟨{}, .str, .value⟩ exStrDoc = .ok exStrDocV := rfl
+
+example : WFValue {} exStrDocV :=
+  c04_wf_of_parse_str_partial {} exStrDoc (by decide +kernel) exStrDocV rfl rfl
+
+/-- the UTF-8 hypothesis is needed: the model of `from_str` fed non-UTF-8 bytes returns an ill-formed value -/
+example : parseTop ⟨{}, .str, .value⟩ [0x22, 0xff, 0x22] = .ok (.str [0xff]) ∧ ¬ WFValue {} (.str [0xff]) :=
+  ⟨rfl, by decide +kernel⟩
+
+/-- with the finiteness clause of C07 / C08 as a hypothesis on the conversion -/
+theorem c04_wf_of_parse_str_finite (cfg : Cfg) (hfin : ParsedFloatsFinite (specCfg cfg)) (bs : Bytes)
+    (hutf : Spec.Utf8.validUtf8 bs = true) (v : JV) (h : parseTop ⟨cfg, .str, .value⟩ bs = .ok v) :
+    WFValue cfg v := by
+  rw [SJ.Props.C09.c09_str_slice_value cfg bs hutf] at h
+  exact c04_wf_of_parse_finite cfg .slice (by decide) hfin bs v h
+
+example : ParsedFloatsFinite (specCfg { ap := true }) := by
+  intro p b _ hn; simp [Spec.Canon.numOf, specCfg] at hn
+
+/-- **`arbitrary_precision`, `from_str`: no float hypothesis** -/
+theorem c04_wf_of_parse_str_ap (cfg : Cfg) (hap : cfg.ap = true) (bs : Bytes)
+    (hutf : Spec.Utf8.validUtf8 bs = true) (v : JV) (h : parseTop ⟨cfg, .str, .value⟩ bs = .ok v) :
+    WFValue cfg v ∧ ∀ (ext : Ext), ExtOK ext → ∀ src',
+      ∃ bufs, serCompact ext (ofValue v) = .ok bufs ∧ parseTop ⟨cfg, src', .value⟩ bufs.flatten = .ok v := by
+  rw [SJ.Props.C09.c09_str_slice_value cfg bs hutf] at h
+  exact c04_wf_of_parse_ap cfg hap .slice (by decide) bs v h
+
+example : WFValue { ap := true } exStrDocV :=
+  (c04_wf_of_parse_str_ap { ap := true } rfl exStrDoc (by decide +kernel) exStrDocV rfl).1
+
+/-- **`from_str(to_string(from_str(s))) = from_str(s)`** for every `&str` `s`, whenever the floats of the
+    value read are finite and returned by the printer/parser pair -/
+theorem c04_reparse_str_partial (cfg : Cfg) (ext : Ext) (hext : ExtOK ext) (bs : Bytes)
+    (hutf : Spec.Utf8.validUtf8 bs = true) (v : JV) (h : parseTop ⟨cfg, .str, .value⟩ bs = .ok v)
+    (hfin : finiteFloats v = true) (hfl : FloatsRoundTrip cfg ext v) :
+    ∃ bufs, serCompact ext (ofValue v) = .ok bufs ∧ parseTop ⟨cfg, .str, .value⟩ bufs.flatten = .ok v :=
+  c04_value cfg .str ext hext v (c04_wf_of_parse_str_partial cfg bs hutf v h hfin) hfl
+
+example : ∃ bufs, serCompact ext0 (ofValue exStrDocV) = .ok bufs ∧
+    parseTop ⟨{}, .str, .value⟩ bufs.flatten = .ok exStrDocV :=
+  c04_reparse_str_partial {} ext0 ext0_ok exStrDoc (by decide +kernel) exStrDocV rfl rfl (by decide)
 
 end SJ.Props.C04
